@@ -698,7 +698,7 @@ fn rd_state(t: &mut Toks) -> MemSource {
     MemSource(v)
 }
 
-/// `ic ii skip nstates state*  nparents idx*`: states 0..n-2 are backed up with `force` (every file
+/// `ic ii skip nstates state*  nparents idx*  [gh gl gp gt {host label time}*nstates]`: states 0..n-2 are backed up with `force` (every file
 /// read), the last one with the given parent options (explicit parents = snapshots of the listed
 /// states, none listed = latest), then once more with `force`; every file of the parent-based
 /// snapshot is dumped and compared with the source bytes.
@@ -711,6 +711,26 @@ fn mem_case(line: &str) -> String {
     let states: Vec<MemSource> = (0..ns).map(|_| rd_state(&mut t)).collect();
     let np = t.u();
     let pidx: Vec<usize> = (0..np).map(|_| t.u() as usize).collect();
+    // optional: group criterion and (host, label, time) of every state's snapshot (the last = the new one)
+    let mut crit: Option<String> = None;
+    let mut attrs: Vec<(u64, u64, u64)> = Vec::new();
+    if let Some(first) = t.opt_s() {
+        let flags = [first.parse::<u64>().unwrap(), t.u(), t.u(), t.u()];
+        let names = ["host", "label", "paths", "tags"];
+        crit = Some(names.iter().zip(flags).filter(|(_, f)| *f == 1).map(|(n, _)| *n).collect::<Vec<_>>().join(","));
+        for _ in 0..ns {
+            attrs.push((t.u(), t.u(), t.u()));
+        }
+    }
+    let mk_snap = |k: usize| -> SnapshotFile {
+        let mut sn = SnapshotFile::default();
+        if let Some((h, l, tm)) = attrs.get(k) {
+            sn.hostname = format!("h{h}");
+            sn.label = format!("l{l}");
+            sn.time = Timestamp::from_second(1_700_000_000 + *tm as i64).unwrap().to_zoned(rustic_core::jiff::tz::TimeZone::UTC);
+        }
+        sn
+    };
     let res = (|| -> anyhow::Result<String> {
         let store = mem();
         let (repo, _key) = init_repo(store.clone(), None, &small_pack_config(6_000, 600), &repo_opts())?;
@@ -718,9 +738,9 @@ fn mem_case(line: &str) -> String {
         let force = BackupOptions::default().parent_opts(ParentOptions::default().force(true));
         let mut repo = repo;
         let mut ids = Vec::new();
-        for st in &states[..ns - 1] {
+        for (k, st) in states[..ns - 1].iter().enumerate() {
             let r = repo.to_indexed_ids()?;
-            let sn = r.archive(&force, st, SnapshotFile::default(), &paths)?;
+            let sn = r.archive(&force, st, mk_snap(k), &paths)?;
             ids.push(sn.id.to_hex().to_string());
             repo = r.drop_index();
         }
@@ -729,8 +749,13 @@ fn mem_case(line: &str) -> String {
         if !pidx.is_empty() {
             po = po.parents(pidx.iter().map(|i| ids[*i].clone()).collect::<Vec<_>>());
         }
+        if let Some(c) = &crit {
+            po = po.group_by(Some(c.parse::<rustic_core::SnapshotGroupCriterion>().map_err(|e| anyhow::anyhow!("{e:?}"))?));
+        }
         let r = repo.to_indexed_ids()?;
-        let snap2 = r.archive(&BackupOptions::default().parent_opts(po), cur, SnapshotFile::default(), &paths)?;
+        let snap2 = r.archive(&BackupOptions::default().parent_opts(po), cur, mk_snap(ns - 1), &paths)?;
+        let sel: Vec<String> = snap2.parents.iter().map(|p| ids.iter().position(|i| *i == p.to_hex().to_string()).map_or("?".to_string(), |k| k.to_string())).collect();
+        let sel = if sel.is_empty() { "-".to_string() } else { sel.join(",") };
         let sum2 = snap2.summary.clone().unwrap_or_default();
         let saved2 = store.list(FileType::Snapshot)?.iter().any(|i| *i == *snap2.id);
         let repo = r.drop_index();
@@ -753,8 +778,8 @@ fn mem_case(line: &str) -> String {
         let snap_f = r.archive(&force, cur, SnapshotFile::default(), &paths)?;
         let sum_f = snap_f.summary.clone().unwrap_or_default();
         Ok(format!(
-            "ok tree_equal={} dump={} saved2={} parents_used={} unmod={} changed={} new={} f_new={}",
-            u8::from(snap2.tree == snap_f.tree), dump, u8::from(saved2), snap2.parents.len(),
+            "ok tree_equal={} dump={} saved2={} parents_used={} sel={} unmod={} changed={} new={} f_new={}",
+            u8::from(snap2.tree == snap_f.tree), dump, u8::from(saved2), snap2.parents.len(), sel,
             sum2.files_unmodified, sum2.files_changed, sum2.files_new, sum_f.files_new
         ))
     })();
